@@ -77,7 +77,7 @@ func (c13) build(c *mon.Ctx) c13Case {
 		}
 		if r.Intn(3) == 0 {
 			ps := gt.StmtPositions(&stmts)
-			ps[r.Intn(len(ps))].Insert(gt.Call("exit"))
+			ps[r.Intn(len(ps))].Insert(gen.ExitStmt(r))
 		}
 		if r.Intn(4) == 0 {
 			ps := gt.StmtPositions(&stmts)
